@@ -28,7 +28,9 @@ RULE = (
     "axes: documented scalar `mpsa_eta` in {default, 0, 0.25, 1/3} and uniform grid scale in "
     "{1, 1e-3, 1e3} on one grid per family, where the discretization is also repeated on the SAME "
     "grid and data dictionary and the second set of matrices is checked; grid, stiffness, "
-    "coupling tensor and bc arrays are digested before / after every discretize (purity)"
+    "coupling tensor and bc arrays are digested before / after every discretize (purity); valid "
+    "NON-CONVEX grids (5 dart-quadrilateral grids); `partition_arguments` num_subproblems in "
+    "{1 (main alphabet), 2, 3} on one grid per family, C/T(3,2)@map and a dart grid"
 )
 ASSUMPTIONS = [
     "all mechanical boundary faces Dirichlet with data u(x_f); constant isotropic stiffness",
@@ -53,6 +55,13 @@ MIN_CLASSES = 6
 CHUNK = 8
 TOL = 1e-10
 KW = "mechanics"
+DARTS = [  # valid non-convex (dart) quadrilaterals: an interior node moved past a neighbour's diagonal
+    {"kind": "cart", "n": [3, 3], "set": [[5, [0.05, 0.07]]]},
+    {"kind": "cart", "n": [3, 3], "set": [[5, [0.05, 0.07]]], "map": "shear"},
+    {"kind": "cart", "n": [2, 2], "set": [[4, [0.9, 0.88]]]},
+    {"kind": "cart", "n": [3, 2], "set": [[5, [0.06, 0.1]]]},
+    {"kind": "cart", "n": [3, 3], "set": [[5, [0.05, 0.07]], [10, [0.95, 0.93]]]},
+]
 MULAM = [(1.0, 1.0), (1.0, 10.0), (3.0, 0.0)]
 ALPHAS = {"one": 1.0, "frac": 0.7, "iso": 1.3}
 PRESSURES = [1.0, -2.0]
@@ -118,6 +127,12 @@ def cases(tier):
                     for e in (0.0, 0.25, 1.0 / 3.0)]
         out += [{"grid": dict(sp, scale=sc), "mu": 1.0, "lam": 10.0, "inverter": "python", "reuse": True}
                 for sc in (1e-3, 1e3)]
+    # valid non-convex (dart) grids, and partitioned discretization on one grid per family + a dart
+    ml = MULAM if tier != "quick" else [(1.0, 10.0)]
+    out += [{"grid": sp, "mu": mu, "lam": lam, "inverter": "python"} for sp in DARTS for mu, lam in ml]
+    part_grids = fam + [{"kind": "cart", "n": [3, 2], "map": "shear"}, {"kind": "tri", "n": [3, 2], "map": "skew"}, DARTS[0]]
+    out += [{"grid": sp, "mu": mu, "lam": lam, "inverter": "python", "nsub": k}
+            for sp in part_grids for k in (2, 3) for mu, lam in ml]
     return out
 
 
@@ -136,14 +151,22 @@ def run_case(case) -> Outcome:
     amax = float(np.linalg.norm(nrm, axis=0).max())
     vmax = float(g.cell_volumes.max())
     gname = G.name(spec)
-    korth = spec["kind"] == "cart" and not spec.get("pert") and spec.get("map", "id") == "id"
-    plain = not spec.get("pert") and spec.get("map", "id") == "id"
+    korth = spec["kind"] == "cart" and not spec.get("pert") and not spec.get("set") and spec.get("map", "id") == "id"
+    plain = not spec.get("pert") and not spec.get("set") and spec.get("map", "id") == "id"
+    if spec.get("set") and not G.nonconvex_cells(g):
+        raise RuntimeError("declared dart grid has no non-convex cell")
+    nsub = case.get("nsub", None)
     gcls = f"{d}d/{spec['kind']}" + ("" if plain else "*") + f"/{case['inverter']}"
     if eta is not None:
         gcls += f"/eta={eta:.2f}"
     if spec.get("scale", 1) != 1:
         gcls += f"/x{spec['scale']:g}"
-    base = {"grid": spec, "grid_name": gname, "mu": mu, "lam": lam, "inverter": case["inverter"], "eta": eta}
+    if spec.get("set"):
+        gcls += "/dart"
+    if nsub is not None:
+        gcls += f"/nsub={nsub}"
+    base = {"grid": spec, "grid_name": gname, "mu": mu, "lam": lam, "inverter": case["inverter"], "eta": eta,
+            "num_subproblems": nsub}
 
     coupling = {"one": ALPHAS["one"], "frac": ALPHAS["frac"],
                 "iso": pp.SecondOrderTensor(ALPHAS["iso"] * np.ones(nc))}
@@ -152,6 +175,8 @@ def run_case(case) -> Outcome:
     prm = {"fourth_order_tensor": stiff, "bc": bc, "inverter": case["inverter"], "scalar_vector_mappings": coupling}
     if eta is not None:
         prm["mpsa_eta"] = eta
+    if nsub is not None:
+        prm["partition_arguments"] = {"num_subproblems": nsub}
     data = pp.initialize_data({}, KW, prm)
     disc = pp.Biot(KW)
     dig0 = G.digest(g, stiff, bc, coupling["iso"])
@@ -201,7 +226,7 @@ def _one_pass(out, pp, disc, g, data, coupling, dig0, args, npass, base, gcls, g
             tol = TOL * alpha * vmax * (float(np.abs(Gm).max()) + umax / hmin)
             trace = "div" if abs(np.trace(Gm)) > 0 else ("shear" if kind == "lin" else kind)
             nontrivial = kind != "transl" and (alpha != 1.0 or not korth)
-            k = (gname, mu, lam, key, label, case["inverter"], eta, npass) if nontrivial else None
+            k = (gname, mu, lam, key, label, case["inverter"], eta, npass, case.get("nsub")) if nontrivial else None
             err = np.abs(got - exp)
             if not np.all(np.isfinite(got)) or err.max() > tol:
                 c = int(np.nanargmax(err)) if np.all(np.isfinite(err)) else 0
@@ -216,7 +241,7 @@ def _one_pass(out, pp, disc, g, data, coupling, dig0, args, npass, base, gcls, g
             got = (sg @ (p * np.ones(nc))).reshape((d, nf), order="F")
             exp = -alpha * p * nrm
             tol = TOL * alpha * abs(p) * amax
-            k = (gname, mu, lam, key, f"p={p}", case["inverter"], eta, npass) if (alpha != 1.0 or not korth) else None
+            k = (gname, mu, lam, key, f"p={p}", case["inverter"], eta, npass, case.get("nsub")) if (alpha != 1.0 or not korth) else None
             err = np.abs(got - exp)
             if not np.all(np.isfinite(got)) or err.max() > tol:
                 f = int(np.nanargmax(err.max(axis=0))) if np.all(np.isfinite(err)) else 0
